@@ -669,7 +669,7 @@ def replay(path: str) -> int:
         doc = json.load(fd)
     prop = load_prop(doc["property"])
     prop.setup_worker()
-    bucket = doc["bucket"]
+    bucket = doc.get("bucket", "")
     try:
         res = run_case(prop, doc["case"], frozenset())
         fails = res.failures
